@@ -129,12 +129,12 @@ theorem sensitivity_transform_passes_lint (c sen : Circuit) (n : Name) (ord ord'
     startpoints: when every input of both circuits is tied, the miter passes lint -/
 theorem miter_tied_passes_lint (c0 c1 m : Circuit) (sp ep : List Name) (ord ord' : Ord) (hord : OrdOK ord) (hord' : OrdOK ord')
     (h0 : C04.Good c0) (h1 : C04.Good c1) (hr0 : RegistryOK c0) (hr1 : RegistryOK c1) (hne : c1.nodes ≠ [])
-    (hs : C04.Shared c0 c1 sp ep) (hsp : sp ≠ []) (hep : ep ≠ [])
+    (hs : C04.Shared c0 c1 sp ep)
     (hall0 : ∀ i ∈ c0.inputs, i ∈ sp) (hall1 : ∀ i ∈ c1.inputs, i ∈ sp)
     (h : Tx.miter c0 (some c1) (some sp) (some ep) ord = .ok m) :
     lint m {} ord' = Outcome.ok := by
   obtain ⟨hcl, hnd⟩ := LintProd.miter_tied_clean h0.clean h1.clean h0.nobb h1.nobb hr0.1 hr1.1 hne hs.spNodup
-    hs.epNodup hs.sp0 hs.ep0 hsp hep hall0 hall1 h
+    hs.epNodup hs.sp0 hs.ep0 hall0 hall1 h
   exact lint_accepts m ord' hord' hcl (registryOK_of_noDots hnd)
 
 
